@@ -7,7 +7,7 @@ namespace Ford.Calls
 def intr : List Str := Generated.C08.intrinsics.map String.toList
 
 /-- the recorded call chains of a unit whose body consists of `lines` -/
-def recorded (lines : List Str) : List Chain := (runUnit Generated.C08.cascade intr lines).calls
+def recorded (lines : List Str) : List Chain := (runUnit Generated.C08.guards Generated.C08.cascade intr lines).calls
 
 def recordedOf (lines : List String) : List (List String) :=
   (recorded (lines.map String.toList)).map (fun c => c.map String.ofList)
@@ -19,5 +19,13 @@ def precedesCall : List (String × String) → String → String → Bool
     if n == "CALL_RE|SUBCALL_RE" then false
     else if n == name && g == guard then true
     else precedesCall rest name guard
+
+/-- is branch `(name, guard)` listed before every branch whose name is in `stops`? -/
+def precedesAll (stops : List String) : List (String × String) → String → String → Bool
+  | [], _, _ => false
+  | (n, g) :: rest, name, guard =>
+    if stops.contains n then false
+    else if n == name && g == guard then true
+    else precedesAll stops rest name guard
 
 end Ford.Calls
